@@ -89,5 +89,22 @@ func NewServerTLSConfig(ctx context.Context, certs []tls.Certificate, cquery cty
 		},
 	}
 
+	// VerifyPeerCertificate is not invoked when a TLS session is resumed, while the client
+	// certificate remembered in the session keeps identifying the peer. Run the same checks
+	// again for resumed sessions, so that a certificate revoked (or expired) since the
+	// original handshake stops authenticating.
+	cfg.VerifyConnection = func(cs tls.ConnectionState) error {
+		if !cs.DidResume {
+			return nil
+		}
+
+		certificates := make([][]byte, 0, len(cs.PeerCertificates))
+		for _, cert := range cs.PeerCertificates {
+			certificates = append(certificates, cert.Raw)
+		}
+
+		return cfg.VerifyPeerCertificate(certificates, nil)
+	}
+
 	return cfg, nil
 }
